@@ -400,6 +400,13 @@ def gen_inputs(rng, n):
                     i0 = rng.randint(1, 2)
                     i1 = v.size - 1 - rng.randint(1, 2)
                     dom[d] = [float(v[i0]), float(v[i1])]
+        twin = rng.random() < 0.15
+        if twin:
+            # x and y alike in centre and survey domain, but (below) not in
+            # every per-direction option
+            center[1] = center[0]
+            inp["center"] = center
+            dom[1], dist[1], vec[1] = dom[0], dist[0], vec[0]
         fmt = rng.choice(["tuple", "dict"])
 
         def pack(v3):
@@ -444,6 +451,16 @@ def gen_inputs(rng, n):
             inp["center_on_edge"] = (True, False, rng.random() < 0.5)
         elif r < 0.7:
             inp["center_on_edge"] = {'x': False, 'y': True, 'z': False}
+        if twin:
+            k = rng.randrange(4)
+            if k == 0:
+                inp["center_on_edge"] = (True, False, rng.random() < 0.5)
+            elif k == 1:
+                inp["stretching"] = ([1.0, 1.5], [1.1, 1.3], [1.05, 1.8])
+            elif k == 2:
+                inp["min_width_limits"] = (30.0, 70.0, None)
+            else:
+                inp["min_width_pps"] = (2, 5, 3)
         if rng.random() < 0.3:
             inp["seasurface"] = center[2] + rng.choice([60.0, 333.0, 1000.0,
                                                         2500.0])
